@@ -88,11 +88,12 @@ Proof.
   assert (E1 : sqrt (k * sin a * (k * sin a) + k * cos a * (k * cos a)) = k).
   { replace (k * sin a * (k * sin a) + k * cos a * (k * cos a)) with (k * k) by (pose proof (sc_unit a); nra).
     rewrite sqrt_sq_abs, Rabs_right; lra. }
-  rewrite E1. unfold k at 3 4.
-  assert (E2 : sqrt (r * cos l * (r * cos l) + r * sin l * (r * sin l)) = r).
-  { replace (r * cos l * (r * cos l) + r * sin l * (r * sin l)) with (r * r) by (pose proof (sc_unit l); nra).
+  rewrite E1.
+  assert (E2 : sqrt (k * k + r * sin l * (r * sin l)) = r).
+  { replace (k * k + r * sin l * (r * sin l)) with (r * r) by (unfold k; pose proof (sc_unit l); nra).
     rewrite sqrt_sq_abs, Rabs_right; lra. }
-  rewrite E2. rewrite (atan2_polar r l) by lra.
+  rewrite E2.
+  replace (atan2 (r * sin l) k) with l by (unfold k; symmetry; apply atan2_polar; lra).
   val_eq.
   - (* azimuth *)
     destruct (Rle_dec a PI) as [Hs|Hs].
